@@ -242,7 +242,9 @@ pub fn recipes(subs: &[Subject], rng: &mut Rng, numbers_everywhere: bool) -> Vec
             let c = class_of(l);
             let cnt = seen_class.entry(c.clone()).or_default();
             *cnt += 1;
-            if !structural && !numbers_everywhere && *cnt > 2 { continue; }
+            // thorough: every value of the toy proofs, 40 positions per class of the (much larger) shipped proofs
+            let cap = if !numbers_everywhere { 2 } else if s.layout == "toy" { usize::MAX } else { 40 };
+            if !structural && *cnt > cap { continue; }
             if structural && *cnt > 6 { continue; }
             for (lab, val) in extremes(get(&s.proof, l), &ps) {
                 out.push(Recipe { subj: si, label: format!("{}={}", c, lab), edits: vec![(l.clone(), Edit::Set(val))] });
